@@ -829,7 +829,26 @@ func (w *World) do(op *Op, res *Result) {
 					pn = append(pn, x.Name())
 				}
 				sort.Strings(pn)
-				res.Complete = strings.Join(pn, "\x00") == strings.Join(res.Names, "\x00")
+				// The flat-set comparison of C07 is meaningless only when Clone
+				// legitimately left something out: members that have no body
+				// (declared with New, never parsed).  A member WITH a body that
+				// is missing from the clone is a defect the comparison must see.
+				defined := map[string]bool{}
+				if ds := t.DefinedTemplates(); strings.Contains(ds, ": ") {
+					for _, q := range strings.Split(ds[strings.Index(ds, ": ")+2:], ", ") {
+						defined[strings.Trim(q, `"`)] = true
+					}
+				}
+				have := map[string]bool{}
+				for _, n := range res.Names {
+					have[n] = true
+				}
+				res.Complete = true
+				for _, n := range pn {
+					if !have[n] && !defined[n] {
+						res.Complete = false
+					}
+				}
 			}
 			res.Target = c.Name()
 		}
